@@ -301,6 +301,11 @@ static void run_backend (void)
   vh_out ("start");
   backend ();
   vh_out (g_proceeding_shutdown ? "exit shutdown" : "exit loop");
+  /* main() calls do_shutdown() next, which flushes pending output of every user before closing the sockets
+   * (simulate.c); do that part here, the harness process does not run do_shutdown() (it exits the process) */
+  for (int i = 1; all_users && i < max_users; i++)
+    if (all_users[i] && !(all_users[i]->iflags & CLOSING))
+      flush_message (all_users[i]);
   /* final observations */
   {
     char res[4096];
